@@ -38,7 +38,7 @@ def build(scn):
     lmi = pep.add_psd_matrix(lmi_rows)
     if scn != "unbounded4":
         pep.set_performance_metric(metric)
-    held.update(leafpoint=x0, derivedpoint=x1, leafexpr=f0, derivedexpr=(x1 - xs) ** 2, constraint=ic if scn != "unbounded2" else (t <= 5),
+    held.update(function=f, leafpoint=x0, derivedpoint=x1, leafexpr=f0, derivedexpr=(x1 - xs) ** 2, constraint=ic if scn != "unbounded2" else (t <= 5),
                 lmi=lmi, metric=metric, zeropoint=0 * x0, zeroexpr=0 * f0, zeroprod=(1 - 1.0) * ((x1 - xs) ** 2))
     if scn == "unbounded2":
         pep.add_constraint(held["constraint"])
@@ -82,6 +82,10 @@ def run(item):
         for c in item["h"]:
             o = held[c["o"]]
             try:
+                if c["a"] == "duals":             # the per-condition tables of multipliers of the function
+                    tabs = o.get_class_constraints_duals()
+                    outs.append("ok" if len(tabs) > 0 else "empty")
+                    continue
                 v = o.eval() if c["a"] == "eval" else o.eval_dual()
                 outs.append("ok" if v is not None else "none")
             except Exception as e:
